@@ -2219,6 +2219,9 @@ func (in *Interp) typesModel(f *VOpaque, args []Value, org string, t types.Type)
 		return mk("*types.Var", map[string]Value{"Name": args[2], "Type": args[3]}), true
 	case "extfunc:go/types.Default":
 		return args[0], true
+	case "extfunc:go/types.Unalias":
+		// alias types are not part of the abstract input space: every type is its own unaliased form
+		return args[0], true
 	case "extfunc:go/types.Identical":
 		if args[0] == args[1] {
 			return VBool{Known: true, V: true}, true
